@@ -814,6 +814,53 @@ class BaseInterpreter(Generic[TContext, TEvent]):
                 return produced
         return None
 
+    @staticmethod
+    def _validate_snapshot_shape(snapshot: Dict[str, Any]) -> None:
+        """Rejects a decoded snapshot whose keys or value types are wrong.
+
+        Args:
+            snapshot (Dict[str, Any]): The decoded snapshot object.
+
+        Raises:
+            InvalidConfigError: If a required key is missing or a value has
+                the wrong type.
+        """
+
+        def _fail(problem: str) -> None:
+            raise InvalidConfigError(f"Snapshot is malformed: {problem}.")
+
+        if not isinstance(snapshot.get("context"), dict):
+            _fail("'context' must be an object")
+        if snapshot.get("status") not in (
+            "uninitialized",
+            "running",
+            "done",
+            "error",
+            "stopped",
+        ):
+            _fail("'status' is missing or not a known status")
+        ids = snapshot.get("configuration") or snapshot.get("state_ids")
+        if not isinstance(ids, list) or not all(
+            isinstance(state_id, str) for state_id in ids
+        ):
+            _fail("'configuration' / 'state_ids' must be a list of state ids")
+        history = snapshot.get("history") or {}
+        if not isinstance(history, dict) or not all(
+            isinstance(node_ids, list)
+            and all(isinstance(nid, str) for nid in node_ids)
+            for node_ids in history.values()
+        ):
+            _fail("'history' must map state ids to lists of state ids")
+        actors = snapshot.get("actors") or {}
+        if not isinstance(actors, dict) or not all(
+            isinstance(record, dict)
+            and isinstance(record.get("snapshot"), dict)
+            for record in actors.values()
+        ):
+            _fail("'actors' must map actor ids to persisted records")
+        if not isinstance(snapshot.get("system") or {}, dict):
+            _fail("'system' must be an object")
+
     @classmethod
     def from_snapshot(
         cls: Type["BaseInterpreter[Any, Any]"],
@@ -871,6 +918,11 @@ class BaseInterpreter(Generic[TContext, TEvent]):
             )
 
         # 🧪 Create a new instance of the correct interpreter class (sync/async)
+        # 🛡️ Validate the shape before touching it. A snapshot with a missing
+        #    key or a wrongly typed value used to escape as a bare KeyError /
+        #    TypeError / AttributeError from deep inside the restore.
+        cls._validate_snapshot_shape(snapshot)
+
         interpreter = cls(machine)
         interpreter.context = snapshot["context"]
         interpreter.status = snapshot["status"]
